@@ -114,6 +114,11 @@ func SyncSuffix(cfg Config, prefix []string, prefixMaxView hotstuff.View, crashe
 			res.Detail = "default event not applicable: " + d
 			return res
 		}
+		if w.Starved {
+			res.Skipped = true
+			res.Detail = "command stock exhausted"
+			return res
+		}
 	}
 	res.Detail = "suffix did not finish within 5000 events; " + lagging(members, baseline)
 	return res
